@@ -34,14 +34,14 @@ PARTIAL = ["no machine-checked model of serialize/deserialize of containers, tra
            "encodings, chunking) are outside the check; the two attribute codecs are applied to the in-memory DataTree",
            "satisfiability of oracle_spec (literal_eval . str = id on the simple fragment) is not proved by exhibiting a "
            "verified parser; it is validated against Python on every generated value"]
-REFUTED = ["C13_codec_refuted", "C13_codec_refuted_witnesses"]
-TRUSTED = ["ast.literal_eval is an oracle with premises oracle_spec and oracle_not_self (validated on every run)",
+REFUTED = ["C13_codec_refuted"]
+TRUSTED = ["ast.literal_eval is an oracle with premises oracle_spec, oracle_not_self and oracle_errors (validated on every run)",
            "Model/PyVal.v py_str is Python's str() on the modelled slice (compared character by character on every case)",
            "xarray DataTree, json"]
 ASSUMES = ["attribute values range over None/bool/int/float/str/list/dict with string keys; tuples, numpy scalars and arrays "
            "are not modelled", "strings inside containers are printable ASCII without quote and backslash; dict keys distinct"]
 
-ERRCODE = {"TypeError": 1, "ValueError": 2, "KeyError": 3, "NotImplemented": 4, "LinAlg": 5}
+ERRCODE = {"TypeError": 1, "ValueError": 2, "KeyError": 3, "NotImplemented": 4, "LinAlg": 5, "other:SyntaxError": 7}
 
 FIXED_STRINGS = ["", "[m/s]", "{a}", "True", "False", "None", "[1, 2]", "abc", "[", "]", "{}", "[]", "{", "[a", "a]", "true",
                  "none", " None", "[1, 2] ", "{'a': 1}", "['x', None]", "[m s-1]", "K", "degrees_north", "1", "1.5", "{1: 2}x}"]
@@ -207,7 +207,7 @@ def coq_outcomes(cases, shard):
 
 def make_case(v):
     s0 = v if isinstance(v, str) else str(v)
-    ent, info = oracle_entry(s0) if s0 != "" else ("Err 6", ("err", "SyntaxError"))
+    ent, info = oracle_entry(s0)
     if ent is None:
         return None
     return dict(v=v, s0=s0, ent=ent, info=info)
@@ -275,14 +275,17 @@ def run_codec(ctx):
                 if not ok:
                     prem_bad += 1
                     ctx.notes.append("oracle_spec fails in Python for %r" % (v,))
+        if c["info"][0] == "err" and c["info"][1] not in ("ValueError", "other:SyntaxError"):
+            prem_bad += 1
+            ctx.notes.append("oracle_errors fails in Python for %r: %s" % (c["s0"], c["info"][1]))
         if c["info"][0] == "ok" and isinstance(v, str) and strict_eq(c["info"][1], v):
             prem_bad += 1
             ctx.notes.append("oracle_not_self fails in Python for %r" % (v,))
     ctx.oblige("correspondence:codec (%d attribute values x 2 sites)" % len(cases), "correspondence", bad == 0, "%d disagreements" % bad)
-    ctx.oblige("oracle-premises: literal_eval(str(v)) == v on simple sanitised values; literal_eval(s) != s", "oracle", prem_bad == 0,
+    ctx.oblige("oracle-premises: literal_eval(str(v)) == v on simple sanitised values; literal_eval(s) != s; only ValueError/SyntaxError", "oracle", prem_bad == 0,
                "%d failures" % prem_bad)
     # the defect itself, on the implementation: user-visible strings that do not survive the netCDF codec
-    for s, expect in (("", "IndexError"), ("[m/s]", "ValueError"), ("{a}", "ValueError"), ("True", "bool"), ("None", "NoneType"),
+    for s, expect in (("", "IndexError"), ("[m/s]", "ValueError"), ("{a}", "ValueError"), ("[m s-1]", "SyntaxError"), ("True", "bool"), ("None", "NoneType"),
                       ("[1, 2]", "list")):
         o = impl_codec(s)[1]
         if o[0] != 0:
